@@ -124,6 +124,30 @@ theorem prayerTimesDt_ok_of_times (p : Params α) (loc : Location α) (rd : Int)
   obtain ⟨i, hi⟩ := hopt p .Isha h.isha
   simp [assemble, hf, hs, hdd, ha, hm, hi, him]
 
+/-- **the seven reported entries are exactly the clock conversions of the six adjusted hours and of
+    Imsaak** - nothing else enters a result (this is the link between the theorems about computed
+    hours, C01-C06, and the times the API reports; the conversion itself is Thm C11) -/
+theorem prayerTimesDt_entries (p : Params α) (loc : Location α) (rd : Int) (w : Option (Weather α)) (d : DayTimes)
+    (h : prayerTimesDt p loc rd w = .ok d) :
+    ∃ hh, getHoursAdjExt p (topFromJd (JD.new rd loc.gmt) loc.coords) (w.getD defaultWeather) = .ok hh ∧
+      optTime p .Fajr hh.fajr = .ok d.fajr ∧ optTime p .Shurooq hh.shur = .ok d.shur ∧
+      optTime p .Dhuhr hh.dhuhr = .ok d.dhuhr ∧ optTime p .Asr hh.asr = .ok d.asr ∧
+      optTime p .Maghrib hh.magh = .ok d.magh ∧ optTime p .Isha hh.isha = .ok d.isha ∧
+      getImsaak p (topFromJd (JD.new rd loc.gmt) loc.coords) (w.getD defaultWeather) = .ok d.imsaak := by
+  unfold prayerTimesDt at h
+  simp only at h
+  split at h
+  · simp at h
+  · rename_i hh hhh
+    refine ⟨hh, hhh, ?_⟩
+    unfold assemble at h
+    split at h
+    · rename_i f s dd a m i im e1 e2 e3 e4 e5 e6 e7
+      simp only [Except.ok.injEq] at h
+      subst h
+      exact ⟨e1, e2, e3, e4, e5, e6, e7⟩
+    all_goals simp at h
+
 section real
 open IPT.AngleLemmas IPT.TrigLemmas
 
